@@ -1,4 +1,5 @@
 pub mod c03;
+pub mod c04;
 pub mod c19;
 pub mod diffprop;
 pub mod refprops;
@@ -8,6 +9,7 @@ use crate::engine::Property;
 pub fn all() -> Vec<Box<dyn Property>> {
     vec![
         Box::new(c03::C03::new()),
+        Box::new(c04::C04),
         Box::new(refprops::c05()),
         Box::new(refprops::c06()),
         Box::new(refprops::c07()),
